@@ -131,6 +131,18 @@ func (u *Unit) merge2(a, b *State) *State {
 	}
 	m.havocs = append(m.havocs, a.havocs[:i]...)
 	if i < len(a.havocs) || i < len(b.havocs) {
+		// keys that were only read so far (no entry in either heap map) but are covered by one of
+		// the differing havocs: keep their exact per-branch values
+		for _, hk := range u.readHeapKeys() {
+			if _, ok := m.heap[hk.key]; ok {
+				continue
+			}
+			ta := u.heapBase(a, hk.key, hk.sort)
+			tb := u.heapBase(b, hk.key, hk.sort)
+			if ta.S != tb.S {
+				m.heap[hk.key] = Ite(choice, ta, tb)
+			}
+		}
 		tail := append(append([]havocEvent(nil), a.havocs[i:]...), b.havocs[i:]...)
 		u.nextHavoc++
 		m.havocs = append(m.havocs, havocEvent{id: u.nextHavoc, pred: func(key string) bool {
@@ -877,6 +889,7 @@ func (u *Unit) execFor(st *State, x *ast.ForStmt, label string) []*Out {
 	b := h
 	b.assume(c)
 	u.cover(b, fmt.Sprintf("loop%d/body.sat", ord), nil, pos)
+	u.loopAnchor(b, ord, "head", pos)
 	v0, hasVar := u.loopVariant(b, ls, pos, nil)
 	for _, o := range u.execBlock(b, x.Body.List) {
 		switch {
@@ -1047,6 +1060,7 @@ func (u *Unit) execRange(st *State, x *ast.RangeStmt, label string) []*Out {
 			u.declareOrStore(b, valObj, ev, x.Tok == token.DEFINE)
 		}
 		u.rangeStack = append(u.rangeStack, i)
+		u.loopAnchor(b, ord, "head", pos)
 		bodyOuts := u.execBlock(b, x.Body.List)
 		for _, o := range bodyOuts {
 			if o.kind == oNormal || o.kind == oContinue && (o.label == "" || o.label == label) {
@@ -1151,6 +1165,7 @@ func (u *Unit) execRangeOpaque(st *State, x *ast.RangeStmt, label string, ls *Lo
 		u.declareOrStore(b, valObj, vv, x.Tok == token.DEFINE)
 	}
 	u.cover(b, fmt.Sprintf("loop%d/body.sat", ord), nil, pos)
+	u.loopAnchor(b, ord, "head", x.Body.Rbrace)
 	for _, o := range u.execBlock(b, x.Body.List) {
 		switch {
 		case o.kind == oNormal, o.kind == oContinue && (o.label == "" || o.label == label):
